@@ -6,6 +6,7 @@ import (
 	"context"
 	"encoding/json"
 	"fmt"
+	"strconv"
 	"strings"
 	"time"
 	"unicode/utf8"
@@ -827,6 +828,112 @@ func widthSweep(tier string) *core.Family {
 	}
 }
 
+// (5) extension literals with every field at and around its bounds: the templates of the four
+// literal syntaxes with each numeric field (and each pair of fields) replaced by values at,
+// below and above its range, through the parsers, the value decoders, policy text (the
+// constant is folded while the policy is decoded), policy JSON and the authorizer.
+func literalFields() *core.Family {
+	type tmpl struct {
+		fn     string
+		parts  []string // literal text between the fields
+		fields []string // default field values
+	}
+	tmpls := []tmpl{
+		{"datetime", []string{"", "-", "-", ""}, []string{"2024", "02", "28"}},
+		{"datetime", []string{"", "-", "-", "T", ":", ":", "Z"}, []string{"2024", "02", "28", "10", "30", "45"}},
+		{"datetime", []string{"", "-", "-", "T", ":", ":", ".", "Z"}, []string{"2024", "02", "28", "10", "30", "45", "123"}},
+		{"datetime", []string{"", "-", "-", "T", ":", ":", "+", ""}, []string{"2024", "02", "28", "10", "30", "45", "0530"}},
+		{"datetime", []string{"", "-", "-", "T", ":", ":", ".", "-", ""}, []string{"2024", "02", "28", "10", "30", "45", "123", "0800"}},
+		{"duration", []string{"", "d", "h", "m", "s", "ms"}, []string{"1", "2", "3", "4", "5"}},
+		{"decimal", []string{"", ".", ""}, []string{"12", "34"}},
+		{"ip", []string{"", ".", ".", ".", "/", ""}, []string{"10", "0", "0", "1", "8"}},
+		{"ip", []string{"", ":", ":", "::", "/", ""}, []string{"2001", "db8", "1", "1", "64"}},
+	}
+	vals := []string{"", "0", "00", "000", "0000", "1", "01", "9", "12", "13", "24", "28", "29", "30", "31", "32", "59", "60", "61", "99", "100", "128", "129", "255", "256", "999", "1000", "2359", "2400", "9999", "10000", "99999", "-1", "+1", "ffff", "10000000000000000000"}
+	type cs struct {
+		t      int
+		f1, f2 int // f2 = -1: one field only
+		v1, v2 int
+	}
+	var cases []cs
+	for ti, tp := range tmpls {
+		for f1 := range tp.fields {
+			for v1 := range vals {
+				cases = append(cases, cs{ti, f1, -1, v1, 0})
+			}
+			for f2 := f1 + 1; f2 < len(tp.fields); f2++ {
+				for _, v1 := range []int{1, 2, 4, 9, 13, 15, 17, 19, 20} { // a boundary subset for pairs
+					for _, v2 := range []int{1, 2, 4, 9, 13, 15, 17, 19, 20} {
+						cases = append(cases, cs{ti, f1, f2, v1, v2})
+					}
+				}
+			}
+		}
+	}
+	const chunk = 16
+	n := (len(cases) + chunk - 1) / chunk
+	return &core.Family{
+		Name: "extension-literal-fields",
+		Desc: fmt.Sprintf("%d literals: 9 templates of datetime / duration / decimal / ip syntax with each field replaced by each of %d values at, below and above its range (empty, 0, 00, 13, 32, 60, 61, 256, 10000, signs, hex, 20 digits) and each pair of fields by a boundary subset: ParseX, the typed and untyped value decoders, policy text and JSON (folded while decoding), the authorizer on a request value", len(cases), len(vals)),
+		N:    int64(n),
+		Run: func(t *core.T, i int64) {
+			for k := int(i) * chunk; k < (int(i)+1)*chunk && k < len(cases); k++ {
+				c := cases[k]
+				tp := tmpls[c.t]
+				f := append([]string{}, tp.fields...)
+				f[c.f1] = vals[c.v1]
+				if c.f2 >= 0 {
+					f[c.f2] = vals[c.v2]
+				}
+				var sb strings.Builder
+				for j, p := range tp.parts {
+					sb.WriteString(p)
+					if j < len(f) {
+						sb.WriteString(f[j])
+					}
+				}
+				lit := sb.String()
+				in := tp.fn + "(" + strconv.Quote(lit) + ")"
+				t.Protect("literal:Parse", in, func() {
+					switch tp.fn {
+					case "datetime":
+						if v, err := types.ParseDatetime(lit); err == nil {
+							_ = v.String()
+						}
+					case "duration":
+						if v, err := types.ParseDuration(lit); err == nil {
+							_ = v.String()
+						}
+					case "decimal":
+						if v, err := types.ParseDecimal(lit); err == nil {
+							_ = v.String()
+						}
+					default:
+						if v, err := types.ParseIPAddr(lit); err == nil {
+							_ = v.String()
+						}
+					}
+				})
+				q, _ := json.Marshal(lit)
+				runEntries(t, jsonValueEntries, []byte(`{"__extn":{"fn":"`+tp.fn+`","arg":`+string(q)+`}}`))
+				runEntries(t, jsonValueEntries, []byte(`{"a":[{"__extn":{"fn":"`+tp.fn+`","arg":`+string(q)+`}}]}`))
+				runEntries(t, textPolicyEntries[:1], []byte(`permit(principal,action,resource) when { `+tp.fn+`("`+lit+`") == `+tp.fn+`("`+lit+`") };`))
+				runEntries(t, jsonPolicyEntries[:1], []byte(`{"effect":"permit","principal":{"op":"All"},"action":{"op":"All"},"resource":{"op":"All"},"conditions":[{"kind":"when","body":{"==":{"left":{"`+tp.fn+`":[{"Value":`+string(q)+`}]},"right":{"Value":1}}}}]}`))
+				// the literal arrives in the request
+				var p cedar.Policy
+				if err := p.UnmarshalCedar([]byte(`permit(principal,action,resource) when { ` + tp.fn + `(context.lit) == ` + tp.fn + `(context.lit) };`)); err == nil {
+					ps := cedar.NewPolicySet()
+					ps.Add("p", &p)
+					r := req
+					r.Context = types.NewRecord(types.RecordMap{"lit": types.String(lit)})
+					t.Protect("literal:Authorize", in, func() { _, _ = cedar.Authorize(ps, ents, r) })
+				}
+			}
+			t.Sample(fmt.Sprintf("cases %d..%d", int(i)*chunk, (int(i)+1)*chunk-1))
+		},
+	}
+}
+
 func Check() *core.Check {
 	return &core.Check{
 		ID:        "C10",
@@ -842,10 +949,10 @@ func Check() *core.Check {
 			stails := []string{"", " }", " };"}
 			if tier == "thorough" {
 				return []*core.Family{byteFamily(), tokenFamily("policy-token-strings", policyTokens, 4, heads, tails, textPolicyEntries[:2]), tokenFamily("schema-token-strings", schemaTokens, 4, sheads, stails, schemaTextEntries),
-					jsonDeviations(2), textDeviations(), unicodeEncoders(), widthSweep(tier), depthSweep(22)}
+					jsonDeviations(2), textDeviations(), unicodeEncoders(), literalFields(), widthSweep(tier), depthSweep(22)}
 			}
 			return []*core.Family{byteFamily(), tokenFamily("policy-token-strings", policyTokens, 3, heads, tails, textPolicyEntries[:2]), tokenFamily("schema-token-strings", schemaTokens, 3, sheads, stails, schemaTextEntries),
-				jsonDeviations(1), textDeviations(), unicodeEncoders(), widthSweep(tier), depthSweep(12)}
+				jsonDeviations(1), textDeviations(), unicodeEncoders(), literalFields(), widthSweep(tier), depthSweep(12)}
 		},
 	}
 }
